@@ -23,6 +23,10 @@ CHECKSUM = SCI + "scion/checksum.rs"
 POLICY = "crates/snap/snap-dataplane/src/tunnel_gateway/packet_policy.rs"
 GATEWAY = "crates/snap/snap-dataplane/src/tunnel_gateway/gateway.rs"
 ECHO = "crates/scion-stack/src/stack/scmp_handler/echo.rs"
+ERRH = "crates/scion-stack/src/stack/scmp_handler/error.rs"
+SOCKET = "crates/scion-stack/src/stack/socket.rs"
+SCMP_VIEW = SCI + "proto/payload/scmp/view.rs"
+SIM = "crates/pocketscion/src/network/local/simulator.rs"
 
 
 def register(api):
@@ -318,7 +322,38 @@ def register(api):
                                       "add_u32(buf.len() as u32)", "add_u32(protocol as u32)"]]
         if -1 in order or order != sorted(order) or "add_slice(buf)" in wp.replace(" ", ""):
             raise E("ChecksumDigest::with_pseudoheader: pseudo-header composition not recognised")
+        # ---- handler decision data -------------------------------------------------------------
+        view = api.strip_comments(api.read(SCMP_VIEW))
+        ie = impl_block(view, r"fn\s+is_error\(&self\)\s*->\s*bool\s*\{", "ScmpMessageExt::is_error")
+        is_err_names = sorted(re.findall(r"ScmpMessageView::(\w+)\(_\)", ie))
+        if is_err_names != sorted(errs):
+            raise E(f"is_error(): variants {is_err_names} differ from the kinds with an offending packet {sorted(errs)}")
+        echo = api.strip_comments(api.read(ECHO))
+        te = impl_block(echo, r"fn\s+try_echo_reply\(", "DefaultEchoHandler::try_echo_reply")
+        answered = re.findall(r"ScmpMessageView::(\w+)\(\w+\)\s*=>", te)
+        if answered != ["EchoRequest"] or not re.search(r"_\s*=>\s*return\s+Ok\(None\)", te) or "ScmpEchoReply::new(" not in te:
+            raise E(f"DefaultEchoHandler: answered kinds {answered} (expected exactly EchoRequest -> EchoReply, everything else None)")
+        if "ScionScmpPacket::new(dst, src, reply_path, reply_msg)" not in " ".join(te.split()):
+            raise E("DefaultEchoHandler: reply is not ScionScmpPacket::new(dst, src, reversed path, reply)")
+        errh = api.strip_comments(api.read(ERRH))
+        eh = impl_block(errh, r"fn\s+handle\(&self,\s*pkt", "ScmpErrorHandler::handle")
+        if "is_error()" not in eh or "for_each" not in eh or not re.search(r"\}\);\s*None\s*$", eh.strip()):
+            raise E("ScmpErrorHandler::handle: shape (is_error filter, for_each receiver, returns None) not recognised")
+        sim = api.strip_comments(api.read(SIM))
+        mc = impl_block(sim, r"fn\s+maybe_create_scmp_reply\(", "maybe_create_scmp_reply")
+        if "is_error()" not in mc or "is_multicast()" not in mc:
+            raise E("maybe_create_scmp_reply: error / multicast guards not recognised")
+        no_reply_unknown = bool(re.search(r"message_type\(\)\s*\)?\s*<\s*128", mc))
+        hs = impl_block(sim, r"pub\s+fn\s+handle_scmp\(", "handle_scmp")
+        v_echo, v_sim = "verify_checksum()" in te, "verify_checksum()" in hs
+        if v_echo != v_sim:
+            raise E(f"checksum verification on receive: echo handler {v_echo}, simulator {v_sim} (expected both or neither)")
+        sock = api.strip_comments(api.read(SOCKET))
+        loops = re.findall(r"ProtocolNumber::Udp\s*=>\s*\{\s*\}\s*ProtocolNumber::Scmp\s*=>\s*\{.*?for\s+handler\s+in\s+&self\.scmp_handlers.*?continue;\s*\}\s*next_header\s*=>", sock, flags=re.S)
+        if len(loops) < 2:
+            raise E("socket.rs: the next_header dispatch of recv_from / recv_from_with_path not recognised")
         vals = {
+            "VERIFY_CHECKSUM_ON_RECEIVE": 1 if v_echo else 0, "NO_REPLY_TO_UNKNOWN_ERROR": 1 if no_reply_unknown else 0,
             "SCMP_ERROR_MAX_PACKET_SIZE": maxsz, "MAX_HEADER_SIZE": max_hdr, "JUMBO_BUF_SIZE": bufsz,
             "PROTO_SCMP": proto["Scmp"], "PROTO_UDP": proto["Udp"], "UNKNOWN_HEADER_SIZE": unk_hdr,
             "CHECKSUM_COVERS_MESSAGE": 1 if covered else 0,
@@ -329,6 +364,10 @@ def register(api):
             body += f"def {k} : Nat := {vals[k]}\n"
         body += "/-- true iff every SCMP encoder folds the encoded message bytes into the checksum (`.add_slice`) -/\n"
         body += f"def CHECKSUM_COVERS_MESSAGE : Bool := {'true' if covered else 'false'}\n"
+        body += "/-- true iff DefaultEchoHandler and pocketscion's handle_scmp verify the SCMP checksum before answering -/\n"
+        body += f"def VERIFY_CHECKSUM_ON_RECEIVE : Bool := {'true' if v_echo else 'false'}\n"
+        body += "/-- true iff pocketscion's maybe_create_scmp_reply refuses to answer *every* SCMP type < 128, not only the known kinds -/\n"
+        body += f"def NO_REPLY_TO_UNKNOWN_ERROR : Bool := {'true' if no_reply_unknown else 'false'}\n"
         for k in kinds:
             body += f"def TYPE_{k} : Nat := {ty[k]}\n"
             body += f"def HDR_{k} : Nat := {hdr[k]}\n"
@@ -341,4 +380,4 @@ def register(api):
         for k in ["RESERVED_RNG", "POINTER_RNG"]:
             body += rng("PP_" + k, pp[k]); vals["PP_" + k] = list(pp[k])
         body += "end ScionVerif.Generated.Scmp\n"
-        return api.write_lean("Scmp", body, [SCMP_LAYOUT, SCMP_TYPES, SCMP_MODEL, PAYLOAD, CHECKSUM, HDR_LAYOUT, GATEWAY]), vals
+        return api.write_lean("Scmp", body, [SCMP_LAYOUT, SCMP_TYPES, SCMP_MODEL, SCMP_VIEW, PAYLOAD, CHECKSUM, HDR_LAYOUT, GATEWAY, ECHO, ERRH, SOCKET, SIM]), vals
